@@ -52,6 +52,14 @@ func spoilsOf(line []byte, full bool, r rng) []spoil {
 			out = append(out, spoil{cp()[:n], fmt.Sprintf("cut to %d bytes", n), "short"})
 		}
 	}
+	// one byte short of what the record itself says it holds (records of variable length)
+	if tag := string(line[:2]); (tag == "27" || tag == "34") && len(line) > 47 {
+		out = append(out, spoil{cp()[:len(line)-1], fmt.Sprintf("cut to %d bytes (one short of its own length field)", len(line)-1), "short"})
+		out = append(out, spoil{cp()[:46], "cut to 46 bytes (fixed part only, key length left as it was)", "short"})
+		neg := cp()
+		copy(neg[18:22], []byte("-001"))
+		out = append(out, spoil{neg, "image reference key length -001", "short"})
+	}
 	u := cp()
 	u[0], u[1] = '7', '7'
 	out = append(out, spoil{u, "unknown record type 77", "unknown-type"})
